@@ -35,6 +35,20 @@ impl RustType {
         }
     }
 
+    /// The builtin type of a global element declared as `<element name=".." type="xs:string"/>`.
+    /// Such an element is written as a type alias of that builtin, and an alias cannot stand in
+    /// for a struct as the type of a yaserde member: members that refer to the element take the
+    /// builtin type itself.
+    pub fn as_builtin_alias(&self) -> Option<&RustFieldType> {
+        match self {
+            RustType::Element(props) => match &props.element_type {
+                ElementType::RustType(rust_type) if !rust_type.is_other() => Some(rust_type),
+                _ => None,
+            },
+            _ => None,
+        }
+    }
+
     pub fn try_as_element(&self) -> Option<&ElementProps> {
         match self {
             RustType::Element(props) => Some(&**props),
